@@ -91,48 +91,25 @@ pub fn build_object<'a, K: AsRef<str>>(
     items: impl IntoIterator<Item = (K, &'a [u8])>,
     buf: &mut Vec<u8>,
 ) -> Result<(), Error> {
-    let start = buf.len();
-    // reserve space for header
-    buf.resize(start + 4, 0);
-    let mut len: u32 = 0;
-    let mut key_data = Vec::new();
-    let mut val_data = Vec::new();
-    let mut val_jentries = VecDeque::new();
-    for (key, value) in items.into_iter() {
-        let key = key.as_ref();
-        // write key jentry and key data
-        let encoded_key_jentry = (STRING_TAG | key.len() as u32).to_be_bytes();
-        buf.extend_from_slice(&encoded_key_jentry);
-        key_data.extend_from_slice(key.as_bytes());
-
-        // build value jentry and write value data
+    // the keys of an object are stored sorted and unique (the last value of a duplicate key wins),
+    // as in the encoder, whatever the order the items are given in.
+    let items: Vec<(K, &'a [u8])> = items.into_iter().collect();
+    let mut builder = ObjectBuilder::new();
+    for (key, value) in items.iter() {
         let header = read_u32(value, 0)?;
-        let encoded_val_jentry = match header & CONTAINER_HEADER_TYPE_MASK {
+        match header & CONTAINER_HEADER_TYPE_MASK {
             SCALAR_CONTAINER_TAG => {
-                let jentry = &value[4..8];
-                val_data.extend_from_slice(&value[8..]);
-                jentry.try_into().unwrap()
+                let jentry = JEntry::decode_jentry(read_u32(value, 4)?);
+                builder.push_raw(key.as_ref(), jentry, &value[8..]);
             }
             ARRAY_CONTAINER_TAG | OBJECT_CONTAINER_TAG => {
-                val_data.extend_from_slice(value);
-                (CONTAINER_TAG | value.len() as u32).to_be_bytes()
+                let jentry = JEntry::make_container_jentry(value.len());
+                builder.push_raw(key.as_ref(), jentry, value);
             }
             _ => return Err(Error::InvalidJsonbHeader),
-        };
-        val_jentries.push_back(encoded_val_jentry);
-        len += 1;
+        }
     }
-    // write header and value jentry
-    let header = OBJECT_CONTAINER_TAG | len;
-    for (i, b) in header.to_be_bytes().iter().enumerate() {
-        buf[start + i] = *b;
-    }
-    while let Some(val_jentry) = val_jentries.pop_front() {
-        buf.extend_from_slice(&val_jentry);
-    }
-    // write key data and value data
-    buf.extend_from_slice(&key_data);
-    buf.extend_from_slice(&val_data);
+    builder.build_into(buf);
 
     Ok(())
 }
